@@ -6,6 +6,8 @@
 package c14lab
 
 import (
+	"bytes"
+	"encoding/json"
 	"fmt"
 	"sort"
 	"strings"
@@ -25,8 +27,11 @@ import (
 // BuildPlan prepares and plans one operation exactly like ExecutionEngine.Execute /
 // getCachedPlan (execution/engine/execution_engine.go): normalise, validate, extract variables,
 // map variables, plan.NewPlanner(cfg).Plan, postprocess.NewProcessor().Process.
-func BuildPlan(cfg plan.Configuration, schema *graphql.Schema, opText, opName string) (*resolve.GraphQLResponse, error) {
+func BuildPlan(cfg plan.Configuration, schema *graphql.Schema, opText, opName string, vars []byte) (*resolve.GraphQLResponse, error) {
 	req := &graphql.Request{Query: opText, OperationName: opName}
+	if len(bytes.TrimSpace(vars)) > 0 {
+		req.Variables = json.RawMessage(vars)
+	}
 	nres, err := req.Normalize(schema,
 		astnormalization.WithRemoveFragmentDefinitions(),
 		astnormalization.WithRemoveUnusedVariables(),
@@ -265,4 +270,35 @@ func (p *PlanDump) SortedTF() []string {
 	}
 	sort.Strings(out)
 	return out
+}
+
+// PlanIndex maps every response key path of the planned response tree to the "Parent.field"
+// coordinates (FieldInfo.ExactParentTypeName + Name) of the fields planned there.
+func PlanIndex(r *resolve.GraphQLResponse) map[string]map[string]bool {
+	idx := map[string]map[string]bool{}
+	var walk func(n resolve.Node, kp string)
+	walk = func(n resolve.Node, kp string) {
+		switch x := n.(type) {
+		case *resolve.Object:
+			if x == nil {
+				return
+			}
+			for _, f := range x.Fields {
+				ckp := kp + "/" + string(f.Name)
+				if f.Info != nil {
+					if idx[ckp] == nil {
+						idx[ckp] = map[string]bool{}
+					}
+					idx[ckp][f.Info.ExactParentTypeName+"."+f.Info.Name] = true
+				}
+				walk(f.Value, ckp)
+			}
+		case *resolve.Array:
+			if x != nil {
+				walk(x.Item, kp)
+			}
+		}
+	}
+	walk(r.Data, "")
+	return idx
 }
